@@ -160,6 +160,11 @@ def catalogue(kind, n, split):
         put("geo_a.f90", "submodule (geo) geo_a\ncontains\n module subroutine area(r)\n  real :: r\n  r = 1.0\n end subroutine area\nend submodule geo_a\n")
         put("geo_b.f90", "submodule (geo:geo_a) geo_b\ncontains\n module subroutine deep(r)\n  real :: r\n  r = 2.0\n end subroutine deep\nend submodule geo_b\n")
         put("geo_main.f90", "program pg\n use geo\n real :: radius\n call area(radius)\n call rescale(radius, 2.0)\n call deep(radius)\nend program pg\n")
+    elif kind == "dummy_many":
+        # one procedure, n + 5 dummy procedures that all name it as their interface
+        m = n + 5
+        names = ", ".join("pm%d" % i for i in range(m))
+        put("dm.f90", "module mdm\ncontains\n subroutine sdm(%s)\n  procedure(sdm) :: %s\n  call pm0(%s)\n end subroutine sdm\nend module mdm\n" % (names, names, names))
     elif kind == "include_twice":
         # f is included by two procedures (of g and of h) and itself includes g from inside a procedure; the file names decide the
         # order of resolution (the first permutation builds a stale child link that only the children direction of the guard sees)
@@ -177,7 +182,7 @@ def catalogue(kind, n, split):
 
 KINDS = ["use", "extends", "submodule", "pointer", "procptr", "associate", "binding", "include",
          "submodule_tail", "extends_tail", "pointer_tail", "pointer_x_use", "procptr_x_use", "pointer_x_submodule",
-         "dummy_proc", "dummy_result", "include_nested", "include_nested_all", "include_twice", "pp_include", "submodule_x_interface"]
+         "dummy_proc", "dummy_result", "include_nested", "include_nested_all", "include_twice", "pp_include", "submodule_x_interface", "dummy_many"]
 
 
 def identifiers(text):
@@ -226,6 +231,16 @@ def run_workspace(ctx, kind, n, split, coq_exprs, coq_meta):
                         dt = time.time() - t0
                         if r is None or r[0] == "e" or dt > 2.0:
                             bad.append((m, name, (li, ch), (r[3] if r and r[0] == "e" else "no answer" if r is None else "slow %.1fs" % dt)))
+            if kind.startswith("include"):
+                # every file of the cycle is saved again with a line added: the notification is carried out (diagnostics are published)
+                for name, text in files.items():
+                    path = os.path.join(root, name)
+                    with open(path, "a") as f:
+                        f.write("\n")
+                    conn.take()
+                    impl.did_save(srv, path)
+                    if not any(o[0] == "n" and o[1] == "textDocument/publishDiagnostics" for o in conn.take()):
+                        bad.append(("didSave", name, None, "no diagnostics published after saving a file of the cycle (the notification was aborted)"))
             correspondence(srv, coq_exprs, coq_meta, (kind, n, split))
             forest_correspondence(ctx, srv, coq_exprs, coq_meta, (kind, n, split), files)
         except Timeout:
